@@ -99,6 +99,7 @@ Definition set_exec (g : gst) (x : list (tid * ent)) : gst := mkG (g_total g) x 
 Definition set_wr (g : gst) (x : list (tid * nat)) : gst := mkG (g_total g) (g_exec g) x (g_ww g) (g_pool g).
 Definition set_ww (g : gst) (x : list (tid * nat)) : gst := mkG (g_total g) (g_exec g) (g_wr g) x (g_pool g).
 Definition set_total (g : gst) (n : nat) : gst := mkG n (g_exec g) (g_wr g) (g_ww g) (g_pool g).
+Definition set_pool (g : gst) (p : list nat) : gst := mkG (g_total g) (g_exec g) (g_wr g) (g_ww g) p.
 
 (* ObtainObject(): the most recently recycled WaitCondition, or a fresh one (counter 0) *)
 Definition pool_get (p : list nat) : nat * list nat :=
@@ -370,7 +371,12 @@ Definition upd (f : tid -> loc) (t : tid) (v : loc) : tid -> loc := fun x => if 
 
 Definition sys0 : sys := mkS g0 (fun _ => l0).
 
-Inductive label := LBegin (t : tid) (o : op) | LStep (t : tid) (c : choice).
+(* [LEnv p]: the environment replaces the contents of the wait-condition pool by anything.  In the code a recycled
+   WaitCondition goes back to _waitConditionPool at the END of the call that used it, after _stateMutex was released, so that
+   release can interleave with the ObtainObject() calls other threads make inside their critical sections; [step] performs it
+   together with the preceding critical section, and this label lets the pool change arbitrarily in between -- every
+   interleaving of releases and obtains (and more) is covered, and no theorem depends on what the pool holds. *)
+Inductive label := LBegin (t : tid) (o : op) | LStep (t : tid) (c : choice) | LEnv (p : list nat).
 
 Definition no_out : sout := mkOut None false [] None None.
 
@@ -386,6 +392,7 @@ Definition sys_step (s : sys) (lab : label) : option (sys * sout) :=
       | Some (g', l', o) => Some (mkS g' (upd (s_l s) t l'), o)
       | None => None
       end
+  | LEnv p => Some (mkS (set_pool (s_g s) p) (s_l s), no_out)
   end.
 
 Inductive reachable : sys -> Prop :=
